@@ -749,6 +749,53 @@ func (h *heap) check(step string) *core.Violation {
 		if e.s.Contains(types.NewEntityUID("Over", "written")) {
 			return viol("uidset-aliased", "after %s: an EntityUIDSet changed when the caller's slice was overwritten", step)
 		}
+		// iteration yields exactly the members, once each
+		seen := map[types.EntityUID]int{}
+		for u := range e.s.All() {
+			seen[u]++
+		}
+		n2 := 0
+		e.s.Iterate(func(u types.EntityUID) bool { n2++; return true })
+		if len(seen) != len(e.want) || n2 != len(e.want) || len(e.s.Slice()) != len(e.want) {
+			return viol("uidset-iteration", "after %s: EntityUIDSet iterates %d / %d / %d members, should have %d", step, len(seen), n2, len(e.s.Slice()), len(e.want))
+		}
+		for _, w := range e.want {
+			if seen[w] != 1 {
+				return viol("uidset-iteration", "after %s: EntityUIDSet.All() yields %s %d times", step, w, seen[w])
+			}
+		}
+		// JSON round trip and the pairwise relations between the uid sets of the heap
+		b, err := json.Marshal(e.s)
+		if err != nil {
+			return viol("uidset-json", "after %s: json.Marshal(EntityUIDSet) failed: %v", step, err)
+		}
+		var back types.EntityUIDSet
+		if err := json.Unmarshal(b, &back); err != nil || !back.Equal(e.s) || !e.s.Equal(back) {
+			return viol("uidset-json", "after %s: the JSON form of an EntityUIDSet (%s) does not decode to an equal set (err %v)", step, b, err)
+		}
+		for _, o := range h.usets {
+			wantEq := len(e.want) == len(o.want)
+			wantInter := false
+			for _, w := range e.want {
+				found := false
+				for _, x := range o.want {
+					if x == w {
+						found = true
+					}
+				}
+				if found {
+					wantInter = true
+				} else {
+					wantEq = false
+				}
+			}
+			if e.s.Equal(o.s) != wantEq {
+				return viol("uidset-equal", "after %s: EntityUIDSet.Equal is %v for member lists %v and %v", step, !wantEq, e.want, o.want)
+			}
+			if e.s.Intersects(o.s) != wantInter {
+				return viol("uidset-intersects", "after %s: EntityUIDSet.Intersects is %v for member lists %v and %v", step, !wantInter, e.want, o.want)
+			}
+		}
 	}
 	return nil
 }
